@@ -10,8 +10,10 @@
     paths, memos with or without equality cut-off, derived signals, effects); conditional and
     untracked reads, reads from inside other computations, equal-value writes and bare notifies
     are all in.  Memos created at run time inside another computation are NOT modelled (nor
-    generated); DESIGN 7.C01 defers them to the owner model.  [pure_effects] (effect bodies do
-    not write signals) is vacuous for the graphs of signals and memos C01 quantifies over. *)
+    generated); DESIGN 7.C01 defers them to the owner model.  [no_self_feed] (no effect writes a
+    signal of its own static cone: the complement of the open finding F-C02-d) is vacuous for
+    the graphs of signals and memos C01 quantifies over; it only restricts which effects may
+    run between the reads. *)
 From Coq Require Import List ZArith.
 From LV Require Import Reactive.Graph Reactive.Effects Reactive.GraphInvariant Reactive.GraphPullBase
                        Reactive.GraphPullDefs Reactive.GraphProofs Reactive.EffectsProofs
@@ -22,10 +24,10 @@ Open Scope nat_scope.
 
 (** the global invariant (DESIGN 7.C01 clauses (a)-(f), generalised to effects, ghost causes and
     the waker / run-queue discipline) holds in every reachable state: for all well-formed
-    programs, all histories, all schedules.  ([pure_effects]: effect bodies do not write
-    signals — the part of the quantifier still open, see F-C02-d and the final report.) *)
+    programs, all histories, all schedules; effects may write signals, except into their own
+    static cone (F-C02-d). *)
 Theorem C01_invariant_in_every_reachable_state :
-  forall p, wf_prog p -> pure_effects p ->
+  forall p, wf_prog p -> no_self_feed p ->
   forall ops, wf_ops p ops -> Inv0 p (run_fixed p ops).
 Proof. exact reachable_inv. Qed.
 Print Assumptions C01_invariant_in_every_reachable_state.
@@ -38,7 +40,7 @@ Print Assumptions C01_invariant_in_every_reachable_state.
     recursively so for tracked memos; untracked entries contribute the value seen at the last
     run.  One replay over one log explains the value, hence no mixture of old and new inputs. *)
 Theorem C01_read_consistent :
-  forall p, wf_prog p -> pure_effects p ->
+  forall p, wf_prog p -> no_self_feed p ->
   forall ops n cm e s' v,
   wf_ops p ops -> decl_of p n = DMemo cm e ->
   read_top p n (run_fixed p ops) = (s', v) ->
@@ -53,7 +55,7 @@ Print Assumptions C01_read_consistent.
     evaluated recursively from the signals alone, no caches, no states), and the read changed
     no signal *)
 Theorem C01_read_eq_spec :
-  forall p, wf_prog p -> pure_effects p ->
+  forall p, wf_prog p -> no_self_feed p ->
   forall ops n s' v,
   uf_prog p -> wf_ops p ops -> n < length p -> memob p n = true ->
   read_top p n (run_fixed p ops) = (s', v) ->
@@ -64,7 +66,7 @@ Print Assumptions C01_read_eq_spec.
 (** the same read, seen from the graph: signals untouched, n Clean with the value cached, the
     whole cone of tracked inputs current, a signal read returns its value *)
 Theorem C01_read_leaves_cone_current :
-  forall p, wf_prog p -> pure_effects p ->
+  forall p, wf_prog p -> no_self_feed p ->
   forall ops n s' v,
   wf_ops p ops -> n < length p -> effb p n = false ->
   read_top p n (run_fixed p ops) = (s', v) ->
@@ -85,7 +87,7 @@ Print Assumptions C01_clean_memo_eq_spec.
 
 (** reading again, with nothing written in between, returns the same value *)
 Theorem C01_read_idempotent :
-  forall p, wf_prog p -> pure_effects p ->
+  forall p, wf_prog p -> no_self_feed p ->
   forall ops n s1 v1 s2 v2,
   wf_ops p ops -> n < length p -> memob p n = true ->
   read_top p n (run_fixed p ops) = (s1, v1) -> read_top p n s1 = (s2, v2) -> v2 = v1.
